@@ -169,3 +169,73 @@ func notifierCancelCheck(r *vrt.Result) string {
 	}
 	return ""
 }
+
+// Registry model for N-prog: a set of (key, channel) pairs. Publish(key, token) must have
+// delivered token to exactly the channels subscribed under key at its linearization point.
+type nregState struct {
+	reg [2][2]bool
+	k   string
+}
+
+func (s *nregState) key() string {
+	if s.k == "" {
+		s.k = fmt.Sprint(s.reg)
+	}
+	return s.k
+}
+
+type nregModel struct {
+	delivered map[int][2]bool // token -> channels that received it
+}
+
+func (m nregModel) apply(st linState, op *linOp) []linState {
+	s := st.(*nregState)
+	switch op.kind {
+	case "Sub", "Unsub":
+		k, c := op.args[0].(int), op.args[1].(int)
+		has := s.reg[k][c]
+		wantPanic := has == (op.kind == "Sub")
+		if !op.pending && op.res[0].(bool) != wantPanic {
+			return nil
+		}
+		if wantPanic {
+			return []linState{s}
+		}
+		n := &nregState{reg: s.reg}
+		n.reg[k][c] = op.kind == "Sub"
+		return []linState{n}
+	case "Pub":
+		k, token := op.args[0].(int), op.args[1].(int)
+		if m.delivered[token] != s.reg[k] {
+			return nil
+		}
+		return []linState{s}
+	}
+	panic("nregModel: " + op.kind)
+}
+
+func (nregModel) internal(linState) []linState { return nil }
+
+func notifierProgCheck(r *vrt.Result) string {
+	if m := baseCheck(r, true, true, true); m != "" {
+		return m
+	}
+	m := nregModel{delivered: map[int][2]bool{}}
+	for _, e := range r.Events {
+		if e.Kind == "delivered" {
+			d := m.delivered[e.Int(1)]
+			if d[e.Int(0)] {
+				return fmt.Sprintf("delivered-twice: token %d reached channel %d twice", e.Int(1), e.Int(0))
+			}
+			d[e.Int(0)] = true
+			m.delivered[e.Int(1)] = d
+		}
+	}
+	init := &nregState{}
+	init.reg[0][0] = true
+	ok, why := linearize(m, init, opsFromEvents(r.Events))
+	if !ok {
+		return "registry-linearization: " + why
+	}
+	return ""
+}
